@@ -459,6 +459,14 @@ func New(members ...Member) (Baggage, error) {
 		return Baggage{}, fmt.Errorf("%w: %d", errBaggageBytes, n)
 	}
 
+	// A list-member that is too long to be parsed back must not be accepted
+	// either.
+	for _, m := range bag.Members() {
+		if n := len(m.String()); n > maxBytesPerMembers {
+			return Baggage{}, fmt.Errorf("%w: %d", errMemberBytes, n)
+		}
+	}
+
 	return bag, nil
 }
 
